@@ -73,7 +73,9 @@ fn main() {
     }
     let seed: u64 = args.get(2).and_then(|s| s.parse().ok()).unwrap_or(0);
     // keep panics of the code under test quiet; they are reported as findings
-    std::panic::set_hook(Box::new(|_| {}));
+    if std::env::var_os("REPLAY_PANIC_VERBOSE").is_none() {
+        std::panic::set_hook(Box::new(|_| {}));
+    }
     let n = match args[1].as_str() {
         "varint" => codec::varint_roundtrip(seed),
         "varlong" => codec::varlong_roundtrip(seed),
@@ -93,6 +95,7 @@ fn main() {
         "limits" => conn::limits(seed),
         "config_flow" => cfgflow::sweep(seed),
         "frames" => conn::frames(seed),
+        "truncated" => conn::truncated(seed),
         "session" => conn::session(seed),
         "order" => conn::order(seed),
         "enc_response" => conn::enc_response(seed),
